@@ -61,10 +61,21 @@ class CallsMixin(ExecBase):
         return self.call_value(callee, args, kwargs, st, node)
 
     def call_super(self, name, node, st):
+        """super().<name>(...) inside a method of a class defined in the verified sources: dispatch to the first base
+        class (in source order) that defines <name>; builtin bases (Exception/object) only record the arguments."""
         args, kwargs = self.eval_args(node, st)
+        slf = st.vars.get("self")
+        cur = self.cls
+        if cur is not None and isinstance(slf, Ref):
+            cref = ClassRef(self.mod, cur, f"{self.mod.name}:{cur.name}")
+            for b in source.class_bases(cur):
+                r = self.resolve_global(b)
+                if isinstance(r, ClassRef) and r.node is not None:
+                    m = self.find_method(r, name)
+                    if m is not None:
+                        bound = self.bind_params(m.node, [slf] + list(args), kwargs, st, node, m.mod)
+                        return self.inline(m, bound, st, node)
         if name == "__init__":
-            # Exception.__init__ / object.__init__ : records args on exception objects
-            slf = st.vars.get("self")
             if isinstance(slf, Ref):
                 c = st.wcell(slf)
                 c.fields["args"] = Tup(args)
@@ -405,11 +416,13 @@ class CallsMixin(ExecBase):
                 a = a[1]
             avals.append(self.as_val(a, st, node))
         kvals = {k: self.as_val(v, st, node) for k, v in kwargs.items()}
-        if self.opts.get("functional_opaque") and name in self.opts["functional_opaque"]:
-            f = z3.Function("call." + name, *([Any] * len(avals)), Any)
-            res = Val("any", f(*[a.any() for a in avals])) if avals else Val("any", z3.Const("call." + name, Any))
+        fo = self.opts.get("functional_opaque", ())
+        if fo and (name in fo or short in fo or short.split(".")[-1] in fo):
+            f = z3.Function("call." + short, *([Any] * len(avals)), Any)
+            res = Val("any", f(*[a.any() for a in avals])) if avals else Val("any", z3.Const("call." + short, Any))
         else:
             res = Val("any", fresh("ret_" + short.replace(".", "_"), Any))
+        self.assume(st, res.e != ABSENT)  # `absent` is the encoding of a missing dict entry, never a Python value
         if not is_nothrow:
             flag = fresh("raises_" + short.replace(".", "_"), BoolS)
             self.may_raise(st, flag, Exc(None, origin=name), node)
